@@ -53,6 +53,8 @@ pub struct Cfg {
     pub prefilled: Vec<(String, Vec<Ev>)>,
     /// build the Cli with the deprecated `Cli::new` instead of the builder
     pub deprecated_ctor: bool,
+    /// collect a hash of every transition projected on feature-independent observations (C16)
+    pub digest: Option<std::sync::Arc<std::sync::Mutex<std::collections::HashSet<u64>>>>,
 }
 
 pub struct SessModel<C> {
@@ -129,7 +131,8 @@ impl<C: Autocomplete + Help> SessModel<C> {
         }
     }
 
-    fn check(&self, before: &Snap, before_term_lfs: u32, e: &Ev, calls: &[CallObs], stats: &mut Stats) -> Vec<Viol> {
+    fn check(&self, before: &Snap, bterm: &Term, e: &Ev, calls: &[CallObs], stats: &mut Stats) -> Vec<Viol> {
+        let before_term_lfs = bterm.lfs;
         let p = self.cfg.prop;
         let mon = &self.cfg.mon;
         let mut v = vec![];
@@ -241,8 +244,14 @@ impl<C: Autocomplete + Help> SessModel<C> {
 
         // ---- C01 dispatch
         if mon.dispatch {
+            // a terminator that completes a CR LF / LF CR pair is not an Enter (pairing itself is C04's)
+            let paired = match e {
+                Ev::Key(Key::Lf, _) => before.dec.1 == b'\r',
+                Ev::Key(Key::Cr, _) => before.dec.1 == b'\n',
+                _ => false,
+            };
             match e {
-                Ev::Key(k, hmode) if k.is_enter() => {
+                Ev::Key(k, hmode) if k.is_enter() && !paired => {
                     stats.hit("dispatch_enter");
                     let adm = tokens_adm(&btext);
                     let nonempty: Vec<&Vec<String>> = adm.iter().filter(|t| !t.is_empty()).collect();
@@ -430,7 +439,11 @@ impl<C: Autocomplete + Help> SessModel<C> {
                 let pb = hist_pos(&eb, before.hcur).unwrap_or(None);
                 let pa = hist_pos(&ea, after.hcur).unwrap_or(None);
                 match e {
-                    Ev::Key(k, _) if k.is_enter() => {
+                    Ev::Key(k, _)
+                        if k.is_enter()
+                            && !(matches!(k, Key::Lf) && before.dec.1 == b'\r')
+                            && !(matches!(k, Key::Cr) && before.dec.1 == b'\n') =>
+                    {
                         stats.hit("history_submit");
                         let (want, recorded) = hist_push(&eb, &btext, self.cfg.hb);
                         if recorded {
@@ -552,7 +565,7 @@ impl<C: Autocomplete + Help> SessModel<C> {
         if mon.tab_noop {
             if let Ev::Key(Key::Tab, _) = e {
                 stats.hit("tab_noop_checked");
-                if after.text != before.text || after.cursor != before.cursor || calls.iter().any(|c| !c.sink.is_empty()) {
+                if after.text != before.text || after.cursor != before.cursor || last.term_line != bterm.trimmed() || last.term_col != bterm.col {
                     v.push(Viol::new(format!("{}/tab-not-inert", p), format!("Tab changed {:?}@{} -> {:?}@{} / wrote {:?}", btext, before.cursor, after.text, after.cursor, calls.iter().map(|c| c.sink.clone()).collect::<Vec<_>>())));
                 }
             }
@@ -560,7 +573,7 @@ impl<C: Autocomplete + Help> SessModel<C> {
         if mon.up_down_noop {
             if let Ev::Key(Key::Up, _) | Ev::Key(Key::Down, _) = e {
                 stats.hit("updown_noop_checked");
-                if after.text != before.text || after.cursor != before.cursor || calls.iter().any(|c| !c.sink.is_empty()) {
+                if after.text != before.text || after.cursor != before.cursor || last.term_line != bterm.trimmed() || last.term_col != bterm.col {
                     v.push(Viol::new(format!("{}/updown-not-inert", p), format!("{} changed {:?}@{} -> {:?}@{}", e.render(), btext, before.cursor, after.text, after.cursor)));
                 }
             }
@@ -662,7 +675,7 @@ impl<C: Autocomplete + Help> Model for SessModel<C> {
     fn step(&self, s: &Sess, e: &Ev, stats: &mut Stats) -> StepOut<Sess> {
         let before = snap(&s.cli);
         let (n, calls) = apply::<C>(s, e);
-        let mut viols = self.check(&before, s.term.lfs, e, &calls, stats);
+        let mut viols = self.check(&before, &s.term, e, &calls, stats);
         stats.hit(match ev_class(e) {
             "char" => "ev_char",
             "backspace" => "ev_backspace",
@@ -683,7 +696,7 @@ impl<C: Autocomplete + Help> Model for SessModel<C> {
                 poison(&mut ps, pb);
                 let (pn, pcalls) = apply::<C>(&ps, e);
                 stats.hit("poison_runs");
-                let pv = self.check(&before, s.term.lfs, e, &pcalls, &mut Stats::default());
+                let pv = self.check(&before, &s.term, e, &pcalls, &mut Stats::default());
                 if !pv.is_empty() {
                     // a property violation that shows only with different garbage
                     for mut x in pv {
@@ -706,6 +719,23 @@ impl<C: Autocomplete + Help> Model for SessModel<C> {
                     break;
                 }
             }
+        }
+        if let Some(set) = &self.cfg.digest {
+            use std::hash::{Hash, Hasher};
+            let mut h = std::collections::hash_map::DefaultHasher::new();
+            (&before.text, before.cursor, before.prompt, canon_dec(before.dec), s.term.trimmed(), s.term.col).hash(&mut h);
+            e.hash(&mut h);
+            for c in &calls {
+                sink_bytes(&c.sink).hash(&mut h);
+                c.ok.hash(&mut h);
+                for hc in &c.handler {
+                    hc.name.hash(&mut h);
+                    hc.args.hash(&mut h);
+                }
+            }
+            let a = &calls.last().unwrap().after;
+            (&a.text, a.cursor, a.prompt, canon_dec(a.dec), n.term.trimmed(), n.term.col).hash(&mut h);
+            set.lock().unwrap().insert(h.finish());
         }
         let mut n = n;
         n.term.lfs = 0; // not part of the state; avoid unbounded growth
